@@ -228,21 +228,12 @@ partial def search (inp : RunInput) (dual : Bool) (total : Nat) (wantExit : Nat)
       | none =>
         mainExpected := (em.filter fun e => !hidden inp e) :: mainExpected
   if !mainBlocked then return (.rejected, b)     -- main could move (all orders tried) and none led to acceptance
-  -- 2. silent worker moves: JobHold / None pick-ups, tasks without actions
+  -- 2. silent worker moves
   if inp.runner ≠ .serial then
-    match runningNoAct inp s s.nStarted with
-    | some w =>
-      match stepF s (.done w) with
-      | some s' =>
-        match consume inp dual r (emitted s s') with
-        | some r' => return search inp dual total wantExit wantDeadlock s' r' b
-        | none => pure ()
-      | none => pure ()
-    | none => pure ()
+    -- JobHold / None pick-ups commute with everything: taken eagerly by the lowest idle worker
     let eager : Bool := match s.jobQ with
       | .hold :: _ | .stop :: _ => true
-      | .task n :: _ => inp.noAct n
-      | [] => false
+      | _ => false
     if eager then
       match lowestIdle s s.nStarted with
       | some w =>
@@ -253,6 +244,40 @@ partial def search (inp : RunInput) (dual : Bool) (total : Nat) (wantExit : Nat)
           | none => pure ()
         | none => pure ()
       | none => pure ()
+    -- a task without actions occupies a worker, and its result races with the other workers' results: every idle
+    -- worker may pick it up, and it may finish at any later point (both are backtracking choices)
+    let mut movedSilent := false
+    match s.jobQ with
+    | .task n :: _ =>
+      if inp.noAct n then
+        for w in List.range s.nStarted do
+          match stepF s (.take w) with
+          | some s' =>
+            match consume inp dual r (emitted s s') with
+            | some r' =>
+              movedSilent := true
+              let (v, b') := search inp dual total wantExit wantDeadlock s' r' b
+              b := b'
+              if v ≠ .rejected then return (v, b)
+            | none => pure ()
+          | none => pure ()
+    | _ => pure ()
+    for w in List.range s.nStarted do
+      match s.workers w with
+      | .running n =>
+        if inp.noAct n then
+          match stepF s (.done w) with
+          | some s' =>
+            match consume inp dual r (emitted s s') with
+            | some r' =>
+              movedSilent := true
+              let (v, b') := search inp dual total wantExit wantDeadlock s' r' b
+              b := b'
+              if v ≠ .rejected then return (v, b)
+            | none => pure ()
+          | none => pure ()
+      | _ => pure ()
+    let _ := movedSilent
     -- 3. a worker move demanded by a next observed worker event (process runner: one candidate per worker)
     let mut moved := false
     for c in nextWorkerMoves dual r do
